@@ -48,6 +48,9 @@ Effect(s, e) ==
       [] e.op = "edit_flow" -> [s EXCEPT !.flw[e.id].val[LabAt(M.flows[e.id].dims, e.pos)] = R(e.val)]
       [] e.op = "set_life"  -> [s EXCEPT !.life8[e.id] = e.val[1]]
       [] e.op = "compute"   -> Compute(M, s)
+      \* a table imported into a parameter: a valid one replaces every entry by the entry of the row carrying its labels,
+      \* a faulty one (duplicate / missing / unknown labels) is refused and changes nothing (C11, C12)
+      [] e.op = "import_param" -> IF e.kind = "valid" THEN [s EXCEPT !.prm[e.id] = FromFlat(M.params[e.id].dims, e.newflat)] ELSE s
       [] OTHER -> s                         \* build, checks and exports change nothing
 
 \* ---- comparison of the logged projection of the real system with a state
@@ -58,7 +61,7 @@ SameArr(logged, x) ==
 SameArrs(loggedSeq, xs) == Len(loggedSeq) = Len(xs) /\ \A i \in DOMAIN xs : SameArr(loggedSeq[i], xs[i])
 
 ClauseState(e, s2, what) ==
-    IF ~SameArrs(e.state.prm, s2.prm) THEN what \o ": a parameter differs from the contract's {C15,C13}"
+    IF ~SameArrs(e.state.prm, s2.prm) THEN what \o ": a parameter differs from the contract's {C15,C13,C11,C12}"
     ELSE IF ~SameArrs(e.state.flw, s2.flw) THEN what \o ": a flow differs from the contract's {C05,C01,C07,C15,C17}"
     ELSE IF ~SameArrs(e.state.sin, s2.sin) THEN what \o ": a stock inflow differs from the contract's {C05,C15,C17}"
     ELSE IF ~SameArrs(e.state.slev, s2.slev) THEN what \o ": a stock level differs from the contract's {C03,C09,C16,C17}"
@@ -114,6 +117,10 @@ ClauseExport(e) ==
                 /\ e.flows[i].from = M.procs[M.flows[f].from] /\ e.flows[i].to = M.procs[M.flows[f].to]
                 /\ RowsAre(e.flows[i].rows, st.flw[f])
          THEN "export(" \o e.kind \o "): a flow is not exported with exactly its values under its labels {C19}"
+    ELSE IF e.kind \in {"pandas", "csv"} /\ \E f \in DOMAIN M.flows : \E i \in DOMAIN e.flows :
+                \* (a flow holding a NaN cannot be read back: from_df refuses blank values - C12)
+                e.flows[i].name = M.flows[f].name /\ ~HasNaN(st.flw[f]) /\ ~SameArr(e.flows[i].back, st.flw[f])
+         THEN "export(" \o e.kind \o "): a flow's exported table read back with from_df is not the flow {C19,C11}"
     ELSE IF Len(e.stocks) # Len(M.stocks) THEN "export(" \o e.kind \o "): not one entry per stock {C19}"
     ELSE IF \E s \in DOMAIN M.stocks : ~\E i \in DOMAIN e.stocks :
                 /\ e.stocks[i].name = M.stocks[s].name /\ e.stocks[i].dims = M.stocks[s].dims
@@ -123,14 +130,39 @@ ClauseExport(e) ==
          THEN "export(" \o e.kind \o "): a stock is not exported with exactly its values under its labels {C19}"
     ELSE ""
 
+\* ---- Sankey diagram (C20): nodes and links of the figure against the state at that moment
+ClauseSankey(e) ==
+    LET want == SankeyLinks(M, st, e.slice, SeqSet(e.exclp), SeqSet(e.exclf), e.split)
+        got  == {<<e.links[i].src, e.links[i].tgt, e.links[i].kind, e.links[i].name, e.links[i].item, R(e.links[i].v)>> : i \in DOMAIN e.links}
+    IN  IF e.outcome # "ok" THEN "sankey: plotting " \o e.outcome \o " {C20}"
+        ELSE IF e.nodes # SankeyNodes(M, SeqSet(e.exclp)) THEN "sankey: the nodes are not the shown processes in their order {C20}"
+        ELSE IF got # want \/ Len(e.links) # Cardinality(want)
+             THEN "sankey: the links are not one per shown flow (or per item of a split flow) with the sliced totals between the right nodes {C20}"
+             ELSE ""
+
+\* ---- line plot of a flow (C20)
+ClauseLines(e) ==
+    LET want == PlotLines(st.flw[e.id], e.intra, e.sub, e.col)
+        got  == {<<e.lines[i].s, e.lines[i].c, e.lines[i].x, [k \in DOMAIN e.lines[i].y |-> R(e.lines[i].y[k])]>> : i \in DOMAIN e.lines}
+    IN  IF e.outcome # "ok" THEN "line plot: plotting " \o e.outcome \o " {C20}"
+        ELSE IF got # want \/ Len(e.lines) # Cardinality(want)
+             THEN "line plot: the lines are not one per (subplot item, line item) with the flow's entries along the chosen dimension {C20}"
+             ELSE ""
+
 \* ---- which conjunct of the event fails ("" = none)
 Clause(e) ==
     LET own == CASE e.op = "build" -> ClauseBuild(e)
                  [] e.op = "check_mb" -> ClauseCheckMB(e)
                  [] e.op = "check_flows" -> ClauseCheckFlows(e)
                  [] e.op = "export" -> ClauseExport(e)
+                 [] e.op = "sankey" -> ClauseSankey(e)
+                 [] e.op = "lines" -> ClauseLines(e)
                  [] e.op = "compute" -> IF e.outcome # "ok" THEN "compute raised {C05}" ELSE ""
                  [] e.op = "raised" -> e.outcome
+                 [] e.op = "import_param" ->
+                      IF e.kind = "valid" /\ e.outcome # "ok" THEN "a valid table was refused by set_values_from_df (" \o e.outcome \o ") {C11}"
+                      ELSE IF e.kind = "faulty" /\ e.outcome = "ok" THEN "a faulty table (duplicate / missing / unknown labels) was accepted {C12}"
+                      ELSE ""
                  [] OTHER -> ""
     IN  IF own # "" \/ e.op = "raised" THEN own ELSE ClauseState(e, Effect(st, e), e.op)
 
